@@ -66,11 +66,12 @@ type world struct {
 	c    *core.Ctx
 	cont bool
 	// plain promise
-	p        *promise.Promise[int]
-	winner   *result
-	nTrue    int
-	attempts []*attempt
-	seen     []result // results returned to awaiters
+	p           *promise.Promise[int]
+	winner      *result
+	nTrue       int
+	preResolved bool
+	attempts    []*attempt
+	seen        []result // results returned to awaiters
 	// container
 	pc    *promise.PromiseContainer[int]
 	hist  core.CellHistory // Val: *slot
@@ -223,8 +224,8 @@ func (w *world) setter(id int) {
 	if w.p.SetResult(r.v, r.err) {
 		at.state = 1
 		w.nTrue++
-		if w.nTrue > 1 {
-			c.Fail("C11.S1.two-winners", "two SetResult calls on one Promise returned true")
+		if w.nTrue > 1 || w.preResolved {
+			c.Fail("C11.S1.two-winners", "two SetResult calls on one Promise returned true (pre-resolved: %v)", w.preResolved)
 		}
 		rr := r
 		w.winner = &rr
@@ -353,6 +354,21 @@ func run(c *core.Ctx) {
 		}
 	} else {
 		w.p = promise.NewPromise[int]()
+		if c.S.PlanP(150) {
+			// a promise created already resolved: every later SetResult loses, every await returns its result
+			r := w.drawResult(5)
+			c.Descf("promise pre-resolved with (%d,%v)", r.v, r.err)
+			if r.err != nil && c.S.PlanP(500) {
+				r.v = 0
+				w.p = promise.NewPromiseWithErr[int](r.err)
+			} else {
+				w.p = promise.NewPromiseWithResult(r.v, r.err)
+			}
+			w.attempts = append(w.attempts, &attempt{r: r, state: 1})
+			rr := r
+			w.winner = &rr
+			w.preResolved = true
+		}
 		target = w.p
 		ns := c.IntRange(0, 4)
 		for i := 0; i < ns; i++ {
